@@ -114,9 +114,69 @@ def classify(instances, prop):
     return new, old
 
 
+def load_selftests(prop):
+    """Mutants that this property's check must detect: selftest/index.json entries listing the property, and every
+    seeded change (seeded/<id>/meta.json) whose detection matrix (seeded/matrix.json) lists the property."""
+    out = []
+    ip = os.path.join(VERIF, "selftest", "index.json")
+    if os.path.exists(ip):
+        for m in json.load(open(ip))["mutants"]:
+            if prop in m["properties"]:
+                out.append({"id": m["id"], "patch": os.path.join(VERIF, m["patch"]), "rules": m.get("rules")})
+    mp = os.path.join(VERIF, "seeded", "matrix.json")
+    if os.path.exists(mp):
+        mx = json.load(open(mp))
+        for sid, det in sorted(mx.items()):
+            if prop in det:
+                out.append({"id": "seeded-" + sid, "patch": os.path.join(VERIF, "seeded", sid, "patch.diff"), "rules": det[prop]})
+    return out
+
+
+def self_validate(prop, rule_ids):
+    """Apply each mutant to a scratch copy of the repository sources (outside /repo and /verif), extract facts and
+    require the property's rules to fire. Returns (results list, failures list)."""
+    import shutil
+    import subprocess
+    import tempfile
+    results, failures = [], []
+    repo = os.environ.get("VERIF_REPO", "/repo")
+    for m in load_selftests(prop):
+        tmp = tempfile.mkdtemp(prefix="verif-selftest.")
+        try:
+            r = os.path.join(tmp, "repo")
+            os.makedirs(r)
+            for x in ("src", "Cargo.toml", "Cargo.lock"):
+                sx = os.path.join(repo, x)
+                if os.path.isdir(sx):
+                    shutil.copytree(sx, os.path.join(r, x))
+                elif os.path.exists(sx):
+                    shutil.copy(sx, os.path.join(r, x))
+            pr = subprocess.run(["patch", "-p1", "-s", "-i", m["patch"]], cwd=r, capture_output=True, text=True)
+            if pr.returncode != 0:
+                results.append({"mutant": m["id"], "outcome": "patch-does-not-apply (source changed since the mutant was recorded); skipped"})
+                continue
+            try:
+                raw, info = factsmod.extract(r, "log")
+            except factsmod.ExtractError as e:
+                results.append({"mutant": m["id"], "outcome": "does-not-compile; skipped"})
+                continue
+            inst, _ = run_rules(Facts(raw), rule_ids, "log")
+            new, _old = classify(inst, prop)
+            fired = sorted({i["rule"] for i in new})
+            if fired:
+                results.append({"mutant": m["id"], "outcome": "detected", "rules": fired})
+            else:
+                results.append({"mutant": m["id"], "outcome": "MISSED"})
+                failures.append(m["id"])
+        finally:
+            shutil.rmtree(tmp, ignore_errors=True)
+    return results, failures
+
+
 def check_property(prop, rule_ids, tier, level="other", explanation="", assumptions=(), extra_cov=None, proof=None, post=None):
     """Generic check entry point. Returns exit code."""
     t0 = time.time()
+    os.environ["VERIF_TIER"] = tier
     seed = int(os.environ.get("VERIF_SEED", "0") or 0)
     repo = os.environ.get("VERIF_REPO", "/repo")
     cfgs = ["log"] if tier == "quick" else ["log", "nofeat", "defmt"]
@@ -144,6 +204,14 @@ def check_property(prop, rule_ids, tier, level="other", explanation="", assumpti
         traceback.print_exc()
         return 2
 
+    selfval = None
+    selffail = []
+    if tier == "thorough" and not os.environ.get("VERIF_NO_SELFTEST"):
+        try:
+            selfval, selffail = self_validate(prop, rule_ids)
+        except Exception:
+            traceback.print_exc()
+            return 2
     undecided = [i for i in instances if i["status"] == "undecided"]
     new, old = classify(instances, prop)
     # de-duplicate across configs by (rule, function, key)
@@ -221,6 +289,9 @@ def check_property(prop, rule_ids, tier, level="other", explanation="", assumpti
         "notes": notes_all,
         "exhaustive": True,
     }
+    if selfval is not None:
+        cov["self_validation"] = {"mutants": len(selfval), "detected": sum(1 for x in selfval if x["outcome"] == "detected"), "results": selfval}
+        cov["disagreements_checked"] = sum(1 for x in selfval if x["outcome"] == "detected")
     if proof:
         cov.update(proof(instances))
     if extra_cov:
@@ -240,6 +311,9 @@ def check_property(prop, rule_ids, tier, level="other", explanation="", assumpti
     if new_u:
         return 1
     if undecided:
+        return 2
+    if selffail:
+        print("SELFTEST-FAILED property=%s: the check does not detect recorded mutant(s) %s" % (prop, selffail))
         return 2
     print("OK property=%s rules=%d instances=%d known=%d (%.1fs)" % (prop, len(rule_ids), len(instances), len(old_u), time.time() - t0))
     return 0
